@@ -591,6 +591,15 @@ class GraphWorld:
     def generic_elements(self, ip, it, node):
         return None
 
+    def eval_fstring(self, ip, parts, node):
+        return None
+
+    def truth_of(self, ip, v):
+        return None
+
+    def type_of(self, ip, v):
+        return None
+
     def resolve_name(self, ip, name, node):
         return None
 
